@@ -198,3 +198,14 @@ pub fn pack_header_from_file(
         })
         .map_err(|e| (classify(&e), e.to_string().replace('\n', " ")))
 }
+
+/// whether the index a repository loaded itself (`to_indexed`, `to_indexed_ids`) knows a blob
+pub fn index_has<S: crate::repository::IndexedTree>(
+    repo: &crate::repository::Repository<S>,
+    is_tree: bool,
+    id: &Id,
+) -> bool {
+    use crate::index::ReadIndex;
+    let tpe = if is_tree { crate::blob::BlobType::Tree } else { crate::blob::BlobType::Data };
+    repo.index().has(tpe, &crate::blob::BlobId::from(*id))
+}
